@@ -45,6 +45,8 @@ type Net struct {
 	Faults map[string]*NetFault // by caller node, consumed by the next request of that node
 	// StripDLEQ removes dleq from responses (legacy mint sub-profile of C08)
 	Panics []string
+	// MeltHandlers: handler task names of POST /v1/melt/bolt11 requests
+	MeltHandlers map[string]bool
 }
 
 var errConnReset = errors.New("SIMNET connection reset by peer")
@@ -52,7 +54,7 @@ var errConnRefused = errors.New("SIMNET connection refused")
 var errEOF = errors.New("SIMNET EOF")
 
 func NewNet(s *Sim, w *World) *Net {
-	return &Net{s: s, World: w, nReq: map[string]int{}, Faults: map[string]*NetFault{}}
+	return &Net{s: s, World: w, nReq: map[string]int{}, Faults: map[string]*NetFault{}, MeltHandlers: map[string]bool{}}
 }
 
 type httpResult struct {
@@ -139,8 +141,11 @@ func (n *Net) RoundTrip(req *http.Request) (*http.Response, error) {
 		n.nReq[callerName]++
 		done := make(chan httpResult, 1)
 		obs.Handler = fmt.Sprintf("%s/h%d", callerName, n.nReq[callerName])
-		n.s.Go(obs.Handler, inc, fg, func() {
-			finished := false
+		if req.Method == "POST" && strings.HasPrefix(uri, "/v1/melt/bolt11") {
+			n.MeltHandlers[obs.Handler] = true
+		}
+		finished := false
+		n.s.GoC(obs.Handler, inc, fg, func() {
 			defer func() {
 				if r := recover(); r != nil {
 					if he, ok := r.(HarnessError); ok {
@@ -149,17 +154,19 @@ func (n *Net) RoundTrip(req *http.Request) (*http.Response, error) {
 					obs.Panic = fmt.Sprint(r)
 					n.Panics = append(n.Panics, fmt.Sprintf("%s %s: %v\n%s", req.Method, uri, r, trimStack(debug.Stack())))
 					n.s.Log("panic", callerName, uri+": "+obs.Panic)
+					finished = true
 					done <- httpResult{err: errEOF}
 					return
-				}
-				if !finished {
-					// the mint died (Goexit) while handling the request
-					done <- httpResult{err: errConnReset}
 				}
 			}()
 			handler.ServeHTTP(rec, sreq)
 			finished = true
 			done <- httpResult{rec: rec}
+		}, func() {
+			if !finished {
+				// the mint died (Goexit) before or while handling the request
+				done <- httpResult{err: errConnReset}
+			}
 		})
 		res = <-done
 	}
